@@ -42,6 +42,13 @@ def straight_line_value(fi):
             env[st.targets[0].id] = substitute(st.value, env)
         elif isinstance(st, ast.Expr):
             effects.append(substitute(st.value, env))
+        elif isinstance(st, ast.If) and not st.orelse and st.body and \
+                isinstance(st.body[-1], ast.Raise) and all(
+                    isinstance(x, (ast.Raise, ast.Expr, ast.Assign))
+                    for x in st.body):
+            # a guard that only raises: does not change the value computed
+            # on the paths that return
+            continue
         elif isinstance(st, ast.Return):
             val = substitute(st.value, env) if st.value is not None else \
                 ast.Constant(value=None)
